@@ -17,7 +17,8 @@ Abs(t) ==
     CASE t.k \in {"ref", "path", "wrap"} -> Abs(t.e)                       \* references and serde-transparent pointers disappear
       [] t.k \in {"vec", "array", "slice"} -> [k |-> "seq", e |-> Abs(t.e)]
       [] t.k = "option" -> [k |-> "opt", e |-> Abs(t.e)]
-      [] t.k = "map" -> [k |-> "map", key |-> Abs(t.key), val |-> Abs(t.val)]
+      [] t.k \in {"map", "map3"} -> [k |-> "map", key |-> Abs(t.key), val |-> Abs(t.val)]      \* map3: HashMap<K, V, S> with an explicit
+                                                                                               \* hasher S, which is no part of the data
       [] t.k = "user" -> [k |-> "user", n |-> t.n, args |-> [i \in 1..Len(t.args) |-> Abs(t.args[i])]]
       [] t.k = "param" -> [k |-> "param", n |-> t.n]
       [] OTHER -> t                                                          \* prim
@@ -33,7 +34,7 @@ AbsC(t, vecu8) ==
     ELSE CASE t.k \in {"ref", "path", "wrap"} -> AbsC(t.e, vecu8)
            [] t.k \in {"vec", "array", "slice"} -> [k |-> "seq", e |-> AbsC(t.e, vecu8)]
            [] t.k = "option" -> [k |-> "opt", e |-> AbsC(t.e, vecu8)]
-           [] t.k = "map" -> [k |-> "map", key |-> AbsC(t.key, vecu8), val |-> AbsC(t.val, vecu8)]
+           [] t.k \in {"map", "map3"} -> [k |-> "map", key |-> AbsC(t.key, vecu8), val |-> AbsC(t.val, vecu8)]
            [] t.k = "user" -> [k |-> "user", n |-> t.n, args |-> [i \in 1..Len(t.args) |-> AbsC(t.args[i], vecu8)]]
            [] t.k = "param" -> [k |-> "param", n |-> t.n]
            [] OTHER -> t
